@@ -49,8 +49,13 @@ func MuLock(m *sync.Mutex, id uint32) {
 		s.mu.Unlock()
 		if free {
 			// shadow and real state disagree (locked by uninstrumented code): keep yielding
+			t.mismatch++
+			if t.mismatch > 300 {
+				s.Fail(fmt.Sprintf("simrt: mutex at point %d is really locked but shadow-free for 300 consecutive attempts of %s (locked outside the simulator's view)", id, t.Name))
+			}
 			s.park(t, id, wkNone, nil)
 		} else {
+			t.mismatch = 0
 			s.park(t, id, wkMutexW, p)
 		}
 	}
